@@ -384,7 +384,8 @@ def match_case(part, p, e, W, w, expect_instance):
                                    irsem.show(e), irsem.show(p), {irsem.show(k): irsem.show(v) for k, v in r.items()}, irsem.show(back)),
                                wit, irsem.size_nodes(e))
             return
-    part.ok(core.h64(('m', repr(p), repr(e))), outcome=('match', r is not False, ref is not None))
+    part.ok(core.h64(('m', repr(p), repr(e))), outcome=('match', r is not False, ref is not None),
+            sample={'pattern': irsem.show(p), 'expr': irsem.show(e), 'matched': r is not False} if len(part.samples) < 3 and irsem.size_nodes(p) > 2 else None)
 
 
 def match_space(w, tier):
@@ -444,7 +445,6 @@ def run(tier, seed):
     irsem.selfcheck()
     part = core.run_sharded(shard, (tier, seed), nshards=core.NPROC * 4)
     part.n = part.counters['read_trees'] + part.counters['match_cases']
-    part.samples.append({'pattern': '(X:8 + Y:8)', 'expr': '(a:8 + (a:8 + b:8))', 'wildcards': ['X', 'Y']})
     rule = ('(1) read sets: every tree of E1 + exemplars + memory/compose/slice geometry family + E2(reduced, w=8) + assignments; '
             'for identifiers a, b the dependence is decided on the full valuation grid (all 2^16 valuations at w=8; boundary grid elsewhere): '
             'value varies along a => a in get_r(mem_read=True); varies with all memory nodes frozen => a in get_r(mem_read=False); every '
